@@ -518,12 +518,12 @@ def build_do_get():
     return r
 
 
-# --------------------------------------------------------------------------------------------- backtracking on a convex quadratic
-def build_backtrack_convexq():
-    """real body of lsearchk_backtrack_t::do_get with EVERY evaluation returning phi(t) = qa t^2 + g0d t + qc (qa > 0): whenever Armijo fails at the current
-    step t, the interpolation mode is cubic or quadratic and the exact minimiser lies inside the safeguarded interval [safeguard*t, (1-safeguard)*t], the next
-    evaluated step IS the exact minimiser, and (c1 <= 1/2) Armijo holds there -- the test at the top of the next iteration returns success.
-    interpolate is used through its proved clause convexq/interpolate/exact; has_armijo through its proved formula (pred/has_armijo)."""
+# --------------------------------------------------------------------------------------------- the interpolating searches on a convex quadratic
+def build_search_convexq(name, tu, flt, cxx, first, steps, inv_extra, setup_extra=None):
+    """real body of a line search with EVERY evaluation returning phi(t) = qa t^2 + g0d t + qc (qa > 0) and every lsearch_step_t it keeps being a sample
+    of phi (invariant, re-established by the body): at every `clamp(interpolate(u, v, mode), lo, hi)` site, in cubic or quadratic mode, if the exact minimiser lies
+    inside [lo, hi] the step evaluated next IS the exact minimiser, and there Armijo (c1 <= 1/2) and strong Wolfe hold for the new trial state.
+    interpolate is used through its proved clause convexq/interpolate/exact; the predicates through their formulas proved in pred/."""
     phi = lambda t: f'(+ (* qa {t} {t}) (* g0d {t}) qc)'
     dphi = lambda t: f'(+ (* 2.0 qa {t}) g0d)'
 
@@ -531,11 +531,12 @@ def build_backtrack_convexq():
         u, v = step_smt.step_of(wp, args[0]), step_smt.step_of(wp, args[1])
         r = wp.fresh('Real', 'interpolate', 'double')
         wp.assume(interp_smt.interpolate_clause([x.t for x in u], [x.t for x in v], r.t, 'mode_cubic_or_quadratic', b='g0d'))
+        wp.oblige('distinct_steps: interpolate is called on two different steps', f'(not (= {u[0].t} {v[0].t}))', n)
         return r
 
     def h_clamp(wp, n, args, callee):
         lo, hi = (wp.conv(wp.ev(a), 'Real', 'double') for a in args[1:3])
-        wp.clamps.append((lo.t, hi.t))
+        wp.clamps.append((wp.guard, lo.t, hi.t))
         return step_smt.h_clamp(wp, n, args, callee)
 
     def h_update(wp, n, args, obj):
@@ -545,46 +546,99 @@ def build_backtrack_convexq():
         wp.upd.append(t)
         return r
 
-    def h_armijo(wp, n, args, obj):
+    def state_of(wp, obj):
+        return step_smt.state_key(wp, obj)
+
+    def h_armijo(wp, n, args, obj):          # proved: pred/has_armijo
         t, c1 = (wp.conv(wp.ev(a), 'Real', 'double') for a in args[2:4])
-        return V(f'(<= {wp.env["state.fx"].t} (+ f_0 (* {t.t} (* {c1.t} g0d))))', 'Bool', 'bool')       # proved: pred/has_armijo
+        return V(f'(<= {wp.env[state_of(wp, obj) + ".fx"].t} (+ f_0 (* {t.t} (* {c1.t} g0d))))', 'Bool', 'bool')
+
+    def h_wolfe(wp, n, args, obj):           # proved: pred/has_wolfe
+        c2 = wp.conv(wp.ev(args[2]), 'Real', 'double')
+        return V(f'(>= {wp.env[state_of(wp, obj) + ".dg"].t} (* {c2.t} g0d))', 'Bool', 'bool')
+
+    def h_swolfe(wp, n, args, obj):          # proved: pred/has_strong_wolfe
+        c2 = wp.conv(wp.ev(args[2]), 'Real', 'double')
+        return V(f'(<= (rabs {wp.env[state_of(wp, obj) + ".dg"].t}) (* {c2.t} (rabs g0d)))', 'Bool', 'bool')
+
+    def sample(wp, s):
+        e = wp.env
+        return f'(and (= {e[s + ".f"].t} {phi(e[s + ".t"].t)}) (= {e[s + ".g"].t} {dphi(e[s + ".t"].t)}))'
 
     def setup(wp):
-        step_smt.doget_setup(wp)
-        wp.upd = []
+        wp.upd, wp.clamps = [], []
         for nm in ('qa', 'qc'):
             wp.const(nm, 'Real', 'double')
         wp.const('mode_cubic_or_quadratic', 'Bool', 'bool')
         wp.assume('(< g0d 0.0)')
-        wp.assume(f'(and (> qa 0.0) (= f_0 qc) (= f_in {phi("t0")}) (= gd_in {dphi("t0")}))')
+        wp.assume('(and (> qa 0.0) (= f_0 qc))')
+        if setup_extra:
+            setup_extra(wp, phi, dphi, sample)
 
     def inv(wp):
         e = wp.env
-        t = e['step_size'].t
-        return [('loop counter in range', step_smt.counter(wp, 0)), ('trial step > 0', f'(> {t} 0.0)'),
-                ('the state is the evaluation of the quadratic at the current trial step', f'(and (= {e["state.t"].t} {t}) (= {e["state.fx"].t} {phi(t)}) (= {e["state.dg"].t} {dphi(t)}))')]
+        out = [('loop counter in range', step_smt.counter(wp, first))] + inv_extra(wp)
+        out += [(f'{s_} is a sample (t, phi(t), phi\'(t)) of the quadratic', sample(wp, s_)) for s_ in steps]
+        return out
 
     def body_post(wp, H, e):
-        if len(wp.upd) != 1 or len(wp.clamps) != 1:
-            raise Unsupported(f'{wp.name}: {len(wp.upd)} evaluations / {len(wp.clamps)} clamps in the loop body (the scenario expects one of each)')
-        lo, hi = wp.clamps[0]
-        within = f'(and mode_cubic_or_quadratic (<= (* 2.0 qa {lo}) (- g0d)) (<= (- g0d) (* 2.0 qa {hi})))'
-        wp.oblige('exact_step: cubic / quadratic mode and the minimiser inside the safeguarded interval: the next evaluated step is the exact minimiser (2 a t = -b)',
-                  IMP(within, f'(= (* 2.0 qa {wp.upd[0]}) (- g0d))'))
-        wp.oblige('then_armijo: ... and for c1 <= 1/2 Armijo holds at the new trial state (the test at the top of the next iteration succeeds)',
-                  IMP(AND(within, '(<= c1 0.5)'), f'(<= {e["state.fx"].t} (+ f_0 (* {e["step_size"].t} (* c1 g0d))))'))
-        wp.oblige('scenario_canary (the negated claim is the scenario itself: must be satisfiable)', NOT(within))
+        if len(wp.upd) != 1 or not wp.clamps:
+            raise Unsupported(f'{wp.name}: {len(wp.upd)} evaluations / {len(wp.clamps)} clamps in the loop body (the scenario expects one evaluation, >= 1 clamp)')
+        t = wp.upd[0]
+        for g, lo, hi in wp.clamps:
+            within = f'(and {g} mode_cubic_or_quadratic (<= (* 2.0 qa {lo}) (- g0d)) (<= (- g0d) (* 2.0 qa {hi})))'
+            wp.oblige('exact_step: cubic / quadratic mode and the minimiser inside the safeguarded interval: the next evaluated step is the exact minimiser (2 a t = -b)',
+                      IMP(within, f'(= (* 2.0 qa {t}) (- g0d))'))
+            wp.oblige('then_conditions: ... and at that trial state Armijo (for c1 <= 1/2) and strong Wolfe hold',
+                      IMP(within, f'(and (=> (<= c1 0.5) (<= {phi(t)} (+ f_0 (* {t} (* c1 g0d))))) (<= (rabs {dphi(t)}) (* c2 (rabs g0d))))'))
+            wp.oblige('scenario_canary (the negated claim is the scenario itself: must be satisfiable)', NOT(within))
         return []
-    inv = step_smt.with_havoc(inv)
+    inv = step_smt.with_havoc(inv, tuple(f'{s_}.{f}' for s_ in steps for f in 'tfg'))
     inv.body_post = body_post
-    r = step_smt.mk('convexq/backtrack_do_get', 'src/lsearchk/backtrack.cpp', 'lsearchk_backtrack_t::do_get', 'do_get', setup, {1: inv},
-                    'backtracking on a convex quadratic: the interpolated step is the exact minimiser unless the safeguard cuts it (double treated as real)',
-                    post=lambda wp, rv: [], calls=[(r'^interpolate\|', h_interp), (r'^clamp\|const double &', h_clamp)],
-                    members=[(r'^update\|.*lsearchk', h_update), (r'^has_armijo\|', h_armijo)])
+    r = step_smt.mk(name, tu, flt, cxx, setup, {1: inv}, 'an interpolating line search on a convex quadratic: the interpolated step is the exact minimiser unless the safeguard '
+                    'cuts it (double treated as real)', post=lambda wp, rv: [], calls=[(r'^interpolate\|', h_interp), (r'^clamp\|const double &', h_clamp)],
+                    members=[(r'^update\|.*lsearchk', h_update), (r'^has_armijo\|', h_armijo), (r'^has_wolfe\|', h_wolfe), (r'^has_strong_wolfe\|', h_swolfe)])
     for v in r[0]:
         if 'scenario_canary' in v.name:
             v.expect = 'sat'
     return r
+
+
+def build_searches_convexq():
+    def state_sample(wp, phi, dphi, sample):
+        step_smt.doget_setup(wp)
+        wp.assume(f'(and (= f_in {phi("t0")}) (= gd_in {dphi("t0")}))')
+
+    def state_inv(wp):
+        e = wp.env
+        t = e['step_size'].t
+        return [('the state is the valid evaluation of the quadratic at the current trial step',
+                 f'(and (= {e["state.t"].t} {t}) {e["state.valid"].t} (= {e["state.fx"].t} (+ (* qa {t} {t}) (* g0d {t}) qc)) (= {e["state.dg"].t} (+ (* 2.0 qa {t}) g0d)))')]
+    out = []
+    # backtracking: bracket (0, t]
+    out.append(build_search_convexq('convexq/backtrack_do_get', 'src/lsearchk/backtrack.cpp', 'lsearchk_backtrack_t::do_get', 'do_get', 0, (),
+                                    lambda wp: [('trial step > 0', f'(> {wp.env["step_size"].t} 0.0)')] + state_inv(wp), state_sample))
+    # LeMarechal: 0 <= L < t < R
+    def inv_lm(wp):
+        e = wp.env
+        eps = step_smt.h_eps('eps0')(wp, None, None, None).t
+        return [('0 <= L.t < trial step', f'(and (<= 0.0 {e["L.t"].t}) (< {e["L.t"].t} {e["step_size"].t}))'),
+                ('trial step < R.t once the bracket has a right end', f'(=> (>= {e["R.t"].t} {eps}) (< {e["step_size"].t} {e["R.t"].t}))')] + state_inv(wp)
+    out.append(build_search_convexq('convexq/lemarechal_do_get', 'src/lsearchk/lemarechal.cpp', 'lsearchk_lemarechal_t::do_get', 'do_get', 1, ('L', 'R'), inv_lm, state_sample))
+    # Fletcher zoom: both ends of the bracket are samples
+    def zoom_setup(wp, phi, dphi, sample):
+        for _, claim in step_smt.zoom_requires('lo_t', 'hi_t'):
+            wp.assume(claim)
+        wp.assume(sample(wp, 'lo'))
+        wp.assume(sample(wp, 'hi'))
+    out.append(build_search_convexq('convexq/fletcher_zoom', 'src/lsearchk/fletcher.cpp', 'lsearchk_fletcher_t::zoom', 'zoom', 0, ('lo', 'hi'),
+                                    lambda wp: [('bracket ends are non-negative', f'(and (>= {wp.env["lo.t"].t} 0.0) (>= {wp.env["hi.t"].t} 0.0))')], zoom_setup))
+    # Fletcher bracketing phase: 0 <= prev < curr = t
+    def inv_fl(wp):
+        e = wp.env
+        return [('0 <= prev.t < curr.t = trial step', f'(and (<= 0.0 {e["prev.t"].t}) (< {e["prev.t"].t} {e["curr.t"].t}) (= {e["curr.t"].t} {e["step_size"].t}))')] + state_inv(wp)
+    out.append(build_search_convexq('convexq/fletcher_do_get', 'src/lsearchk/fletcher.cpp', 'lsearchk_fletcher_t::do_get', 'do_get', 1, ('prev', 'curr'), inv_fl, state_sample))
+    return out
 
 
 def build(tier='quick'):
@@ -593,9 +647,9 @@ def build(tier='quick'):
     r = build_do_get()
     vcs += r[0]
     fns.append(r[1])
-    r = build_backtrack_convexq()
-    vcs += r[0]
-    fns.append(r[1])
+    for r in build_searches_convexq():
+        vcs += r[0]
+        fns.append(r[1])
     return vcs, fns
 
 
